@@ -79,12 +79,15 @@ Spell(n) == CASE n = "a.txt"   -> <<"a", ".", "t", "x", "t">>
               [] n = "x.txt"   -> <<"x", ".", "t", "x", "t">>
               [] n = "77.txt"  -> <<"7", "7", ".", "t", "x", "t">>
               [] n = "filters" -> <<"f", "i", "l", "t", "e", "r", "s">>
+              [] n = "userfilters" -> <<"u", "s", "e", "r", "f", "i", "l", "t", "e", "r", "s">>
+              [] n = "u.txt"   -> <<"u", ".", "t", "x", "t">>
               [] n = "sx"      -> <<"s", "x">>
               [] n = "s.b"     -> <<"s", ".", "b">>
               [] n = "s.d"     -> <<"s", ".", "d">>
               [] n = "s_old"   -> <<"s", "_", "o", "l", "d">>
               [] OTHER         -> <<n>>
 MCChars == [n \in {"R", "D", "s", "S", "o", "t", "d", "a.txt", "c.txt", "x.txt", "77.txt", "filters",
+                   "userfilters", "u.txt",
                    "sx", "s.b", "s.d", "s_old"} |-> Spell(n)]
 
 INSTANCE SafePathCore WITH Chars <- MCChars
@@ -101,12 +104,14 @@ INSTANCE SafePathCore WITH Chars <- MCChars
 Dirs  == {<<"R">>, <<"R", "s">>, <<"R", "s", "d">>, <<"R", "o">>, <<"R", "t">>,
           <<"R", "S">>,           \* differs from "s" in case only: a different directory
           <<"R", "s.d">>,
-          <<"D">>, <<"D", "filters">>}
+          <<"D">>, <<"D", "filters">>,
+          <<"D", "userfilters">>}  \* where the installation wizard's default pattern points: not special either
 Files == {<<"R", "a.txt">>, <<"R", "s", "a.txt">>, <<"R", "s", "c.txt">>,
           <<"R", "s", "d", "a.txt">>, <<"R", "o", "a.txt">>, <<"R", "o", "c.txt">>,
           <<"R", "t", "a.txt">>, <<"R", "S", "a.txt">>,
           <<"R", "sx">>, <<"R", "s.b">>, <<"R", "s_old">>, <<"R", "s.d", "a.txt">>,
-          <<"D", "filters", "x.txt">>, <<"D", "filters", "77.txt">>, <<"D", "x.txt">>}
+          <<"D", "filters", "x.txt">>, <<"D", "filters", "77.txt">>, <<"D", "x.txt">>,
+          <<"D", "userfilters", "u.txt">>}
 Cwd   == <<"R", "o">>     \* working directory of the server: outside every pattern
 
 LitSeq(cs) == [i \in 1..Len(cs) |-> Lit(cs[i])]
@@ -169,13 +174,19 @@ GenLocs ==
                                         <<"filters", ".", "x.txt", "">>, <<"filters", "x.txt", "..", "77.txt">>,
                                         <<"filters", "..", "filters", "x.txt">>}}
       \cup {At("file", "D", <<"filters", "x.txt">>), At("file", "D", <<"filters", "77.txt">>)}
+    \* the directory a fresh installation configures as its only pattern ("<data dir>/userfilters/*"):
+    \* a pattern list that does not name it gives no access to it (seeded change C17-17)
+      \cup {At("none", "D", t) : t \in {<<"userfilters", "u.txt">>, <<"filters", "..", "userfilters", "u.txt">>,
+                                        <<"userfilters">>}}
+      \cup {At("file", "D", <<"userfilters", "u.txt">>)}
 
 MCLocs ==
     {Plain(TRUE, t) : t \in {<<"s", "a.txt">>, <<"s", "c.txt">>, <<"o", "a.txt">>, <<"t", "a.txt">>,
                              <<"s", "d", "a.txt">>, <<"s", "..", "o", "a.txt">>,
                              <<"o", "..", "s", "", "a.txt", "">>, <<"s", "d", "..", ".", "c.txt">>,
                              <<"..", "..", "s", "a.txt">>, <<"s", "d">>, <<>>}}
-      \cup {Plain(TRUE, <<"S", "a.txt">>), Plain(TRUE, <<"s_old">>), At("none", "D", <<"filters", "x.txt">>)}
+      \cup {Plain(TRUE, <<"S", "a.txt">>), Plain(TRUE, <<"s_old">>), At("none", "D", <<"filters", "x.txt">>),
+            At("none", "D", <<"userfilters", "u.txt">>)}
       \cup {Plain(FALSE, t) : t \in {<<"a.txt">>, <<"..", "s", "a.txt">>, <<"s", "a.txt">>}}
       \cup {URL(sc, TRUE, <<"s", "a.txt">>) : sc \in {"file", "ftp", "http"}}
       \cup {URL("file", FALSE, <<"s", "a.txt">>), URL("file", TRUE, <<"s", "..", "o", "a.txt">>)}
